@@ -3,6 +3,7 @@ package main
 import (
 	"fmt"
 	"github.com/VKCOM/tl/pkg/basictl"
+	"reflect"
 	"sort"
 	"strconv"
 	"strings"
@@ -77,6 +78,39 @@ func init() {
 		seed, _ := strconv.ParseUint(f[2], 10, 64)
 		obj.FillRandom(basictl.NewRandGenerator(&srand{s: seed}))
 		w, err := obj.WriteTL1BoxedGeneral(nil)
+		if err != nil {
+			return "writeerr"
+		}
+		return "ok " + hx(w)
+	}
+}
+
+func init() {
+	// lenmis <name> <GoFieldName> <delta> <hex>: read TL1 (bare), then change the #-field that sizes a tuple
+	// (reflection; this is how a caller builds a value whose array length disagrees with its size
+	// parameter) and write: the writer must report an error, never bytes
+	ops["lenmis"] = func(f []string) string {
+		obj := factory.CreateObjectFromName(f[1])
+		if obj == nil {
+			return "driver-error no object " + f[1]
+		}
+		if _, err := obj.ReadTL1(unhex(f[4])); err != nil {
+			return "readerr " + cls(err)
+		}
+		v := reflect.ValueOf(obj)
+		if v.Kind() == reflect.Ptr {
+			v = v.Elem()
+		}
+		if v.Kind() != reflect.Struct {
+			return "skip not-a-struct"
+		}
+		fld := v.FieldByName(f[2])
+		if !fld.IsValid() || fld.Kind() != reflect.Uint32 || !fld.CanSet() {
+			return "skip no-field " + f[2]
+		}
+		d, _ := strconv.ParseInt(f[3], 10, 64)
+		fld.SetUint(uint64(uint32(int64(fld.Uint()) + d)))
+		w, err := obj.WriteTL1General(nil)
 		if err != nil {
 			return "writeerr"
 		}
